@@ -50,8 +50,10 @@ try:
             target = m.group(1)
         # best source of truth: where the demo file sits in the seeding agent's own worktree
         rcx, outx = sh("git -C /tmp/seed-%s status --short --untracked-files=all | grep -E 'zz_seed|_test.go' | head -1" % name)
-        if rcx == 0 and outx.strip():
-            target = os.path.dirname(outx.strip().split()[-1])
+        if rcx == 0 and outx.strip() and os.path.isdir("/tmp/seed-%s" % name):
+            cand = os.path.dirname(outx.strip().split()[-1])
+            if os.path.isdir(os.path.join(wt, cand)):
+                target = cand
         for f in demos:
             shutil.copy(os.path.join(d, f), os.path.join(wt, target, f))
         demo_cmd = demo_cmd.replace("/tmp/seed-" + name, wt)
